@@ -963,6 +963,29 @@ def sub_case(ctx, k, cid):
     # (f) the similarity re-derived on the live object (winter months /
     # maximum delay), with and without suppression of local links: the
     # network must follow the rule for the object's *new* similarity
+    # (f0) the same re-derivation requested with the value the object already
+    # has: the similarity and, after the next change, the network are what
+    # they were
+    same = None
+    if hasattr(net, "set_winter_only") and hasattr(net, "winter_only"):
+        same = ("set_winter_only", bool(net.winter_only()))
+    elif hasattr(net, "set_max_delay"):
+        same = ("set_max_delay", int(net.get_max_delay()))
+    if same is not None and not m.dead:
+        skw = {"dump": False} if cname == "MutualInfoClimateNetwork" else {}
+        oks, e = ctx.call(getattr(net, same[0]), same[1], **skw)
+        ctx.evals()
+        if not oks:
+            ctx.violation(f"{cname}.{same[0]}:raises:{type(e).__name__}",
+                          {"exc": repr(e), "arg": same[1]}, cid)
+        else:
+            ctx.count("same_value_rederivations")
+            th = sub_threshold(rng, m.S32)
+            hh = [[same[0], same[1], "unchanged value"],
+                  ["set_threshold", th]]
+            if th is not None and setter(ctx, net, m, "set_threshold", th,
+                                         cid, hh):
+                check_state(ctx, net, m, "set_threshold", cid, hh)
     redo = None
     if hasattr(net, "set_winter_only") and T >= 36:
         redo = ("set_winter_only", True)
